@@ -35,6 +35,14 @@ CHECKS = {
    text="SnapGet in XState.tla transcribes xModSnapshot.Get (version chain walk skipping unconfirmed writers); invariant SnapshotOK (snapshot at every chain block = what replaying to that block leaves) model-checked over key create / overwrite / delete / re-create / delete-of-missing histories with pending writes and reorganisations; on the real code CreateSnapshot(B).Get for every block B of the pointer's chain and every key is validated after every step.",
    note="Snapshots are specified only while the state machine is on the ledger's main chain. Two keys, one bucket.",
    technique="TLA+ spec + TLC exhaustive MC; TLC-generated behaviours replayed on real code; TLC trace validation"),
+ "C06": dict(level=MC, design="7/C06",
+   text="XState.tla describes every operation as its sequence of atomic storage writes (WalkSteps: pool roll-back batch, one batch per undone / redone block, one per re-admitted transaction; a mined block = ledger confirmation then PlayForMiner as two steps); CrashSpec adds a crash + restart after the j-th write of a walk and TLC checks the C01 / C02 / C03 / C18 invariants in every post-crash state. On the real code the in-memory kv engine logs every atomic write of both databases; for every operation of every generated behaviour and EVERY prefix of the writes it issued the image is materialised, a real ledger + state machine is opened on it, all observables are validated against the specification's persisted state after that many writes, then the state is synchronised to the ledger tip and must equal the replay of the ledger's main chain.",
+   note="A storage write (put / delete / batch) is assumed atomic and durable; crashes inside goleveldb are out of scope. Exhaustive over the crash points of the scenarios run, not over scenarios. The surviving pool is not compared (R3).",
+   technique="TLA+ spec with per-write steps + TLC MC with crash action; write-log prefixes of real executions reopened on real code; TLC trace validation"),
+ "C08": dict(level=MC, design="7/C08", engine="tlc+c08",
+   text="TLC enumerates every base block of spec/BlockId.tla (0..6 transactions incl. non-powers of two and repeated ids, with/without quorum certificate, failed-tx map, PoW bits) x every single mutation (28 kinds over every schema field, failed-tx entries, justify parts, tx add/drop/reorder/alter/duplicate-suffix, merkle-tree array, id, signature) x 8 repair strategies (quick 43k, thorough 1.11M distinct states) against: Verify(Format)=ok; Verify => id=H(header) and root=MerkleRoot(exactly the list, count=length, tree array=body) and signer key hashes to proposer; a differing block verifies only if newly signed by its proposer's key. Every enumerated case (11k / 332k) is concretised through FormatMinerBlock, mutated on the real protobuf and sent to Ledger.VerifyBlock, single/pow CheckMinerMatch and the public primitives; the recorded verdicts are validated by TLC against the same actions.",
+   note="Trusted: TLC/SANY, the concretiser (abstract value -> real bytes), hash/signature assumptions (injective term hashes). Small scope: <= 6 txs, 2-symbol alphabet, single mutations. Permissive (either verdict) for fields outside id/signature and for consensus rules beyond id/address/signature. A reflection walk over the InternalBlock schema must match the spec's 29-entry field table (exit 2 otherwise). A panicking verifier counts as rejection (reported).",
+   technique="TLA+ spec + TLC exhaustive MC (IDEAL) + TLC counterexamples on ACTUAL(KF); TLC-enumerated case table replayed on real code; TLC trace validation; protobuf schema reflection walk"),
 }
 NA = {}
 
@@ -64,7 +72,7 @@ for i in ids:
         m["checks"].append({
           "property_id": i, "quick_cmd": "./check %s --tier quick" % i, "thorough_cmd": "./check %s --tier thorough" % i,
           "evidence_file": "/verif/evidence/%s.json" % i, "replay_cmd_template": "./check %s --replay {path}" % i,
-          "engine": "tlc+vh", "level_claimed": {"category": c["level"], "text": c["text"], "design_ref": c["design"]},
+          "engine": c.get("engine", "tlc+vh"), "level_claimed": {"category": c["level"], "text": c["text"], "design_ref": c["design"]},
           "level_note": c["note"], "technique": c["technique"]})
     else:
         m["not_applicable"].append({"property_id": i, "reason": NA.get(i, "not built yet in this round; see DESIGN.md section 7 for the planned specification and binding")})
